@@ -35,6 +35,8 @@ mod parser;
 mod query;
 mod searcher;
 mod util;
+#[cfg(fselect_verif)]
+mod verif;
 
 use crate::config::Config;
 use crate::parser::Parser;
